@@ -1,4 +1,5 @@
 """C16 — Gibbs sampler state always equals a recomputation from its alignment."""
+from translate import sampler_skel
 
 
 def _fields(line):
@@ -31,6 +32,16 @@ def histogram(line):
             "arm=" + f.get("arm", "?"), "w<=%d" % (4 * ((int(f.get("w", "0")) + 3) // 4)),
             "nseq<=%d" % (4 * ((n + 3) // 4))]
     try:
+        w = int(f.get("w", "0"))
+        seqs = f.get("seqs", "").split(",")
+        wc = "X" if f.get("abc") == "protein" else "N"
+        keys.append("wrap-width:%d" % (int(f.get("wrap", "0")) - w))
+        keys.append("maxlen:" + ("<=80" if max(len(x) for x in seqs) <= 80 else "<=200" if max(len(x) for x in seqs) <= 200 else ">200"))
+        keys.append("wildcard-run:" + ("width+" if any(wc * w in x for x in seqs) else "2+" if any(wc * 2 in x for x in seqs)
+                                       else "single" if any(wc in x for x in seqs) else "none"))
+    except ValueError:
+        pass
+    try:
         moved, recruited, calls = [int(x) for x in f.get("nt", "").split(":")]
         keys += ["calls<=%d" % (100 * ((calls + 99) // 100)),
                  "moved:" + ("0" if moved == 0 else "1-9" if moved < 10 else "10-99" if moved < 100 else "100+"),
@@ -45,6 +56,8 @@ SPEC = dict(
     group="sampler",
     props_file="C16.v",
     module="LMSampler.C16",
+    more_props=[("C16F.v", "LMSampler.C16F"), ("SamplerSkel.v", "LMSampler.SamplerSkel")],
+    translate=sampler_skel.translate,
     harness_bin="sampler",
     ml_modules=["sampler_model"],
     n={"quick": 300, "thorough": 5000},
